@@ -36,6 +36,7 @@ from ..cfg import CFG, branch_facts
 from ..core import (AnalysisError, call_name, const_str, find_calls, is_name,
                     is_self_attr, kwarg, last_attr, names_in, short, txt,
                     walk)
+from ..normalize import expand_locals
 from ..lib_C14 import (COPIER, CORE, EXPORT, FB, WRITER, base_names, cfg_ids,
                        classes_in, edge_guarded, enclosing_conditions,
                        fact_guard, fold, method, single_assign, stmt_of)
@@ -203,14 +204,16 @@ def r71(ctx, repo):
     bn = lp[0].target.id
     skip = [n for n in lp[0].body if isinstance(n, ast.If) and any(
         isinstance(x, ast.Continue) for x in n.body)
-        and "basin_type" in txt(n.test)]
+        and "basin_type" in expand_locals(f, n.test)]
     if len(skip) != 1:
         raise AnalysisError("_get_basin_feature_data: type filter lost")
     bad = []
+    # single-assignment locals (type_requested = basin_type is not None)
+    test = ast.parse(expand_locals(f, skip[0].test), mode="eval").body
     for want in (None, "internal", "file", "remote"):
         for have in ("internal", "file", "remote"):
-            got = bool(fold(skip[0].test, {"basin_type": want,
-                                           f"{bn}.basin_type": have},
+            got = bool(fold(test, {"basin_type": want,
+                                   f"{bn}.basin_type": have},
                             "basin type filter"))
             if got != (want is not None and want != have):
                 bad.append((want, have, got))
@@ -1523,6 +1526,10 @@ TWINS = [
       'if np.array_equal(self.h5file["events"][bm_cand], basin_map):')),
     ("copier loop variable renamed", COPIER,
      lambda s: s.replace("l_key", "log_key")),
+    ("type filter through a local, operands mirrored", CORE,
+     ("                if basin_type is not None and basin_type != bn.basin_type:\n",
+      "                type_requested = basin_type is not None\n"
+      "                if type_requested and bn.basin_type != basin_type:\n")),
     ("filter array bound by a conditional expression", EXPORT,
      ("        if filtered:\n            filter_arr = ds.filter.all\n"
       "        else:\n            filter_arr = None\n",
